@@ -256,6 +256,17 @@ pub fn case(cx: &mut Case) -> CaseResult {
     let wit = gen_witnesses(prog, &typed, &mut s, &mut vb);
     cx.src = s;
     let redeem = build_redeem(prog, true, &wit.values).map_err(|e| harness_error(format!("pass 2 failed: {:?}; {}", e, prog.render())))?;
+    // the walk of the owned program (Arc) and of the borrowed one agree item by item (the two
+    // have separate DagLike implementations, e.g. for the children of a disconnect node)
+    {
+        use simplicity::dag::{DagLike, InternalSharing};
+        let owned: Vec<(usize, Option<usize>, Option<usize>)> = Arc::clone(&redeem).post_order_iter::<InternalSharing>().map(|d| (Arc::as_ptr(&d.node) as usize, d.left_index, d.right_index)).collect();
+        let borrowed: Vec<(usize, Option<usize>, Option<usize>)> = redeem.as_ref().post_order_iter::<InternalSharing>().map(|d| (d.node as *const simplicity::RedeemNode as usize, d.left_index, d.right_index)).collect();
+        if owned != borrowed {
+            let i = owned.iter().zip(borrowed.iter()).position(|(a, b)| a != b).unwrap_or(owned.len().min(borrowed.len()));
+            return Err(format!("post-order walk of Arc<RedeemNode> and of &RedeemNode differ at item {} ({} vs {} items); program {}", i, owned.len(), borrowed.len(), prog.render()));
+        }
+    }
     let (pb, wb, n_nodes) = roundtrip_redeem(cx, "unpruned redeem round trip", g.family, &redeem, prog)?;
     cx.fp.write(&pb);
     cx.fp.write(&wb);
